@@ -73,8 +73,20 @@ fn seq_strategy(depth: u32) -> BoxedStrategy<Vec<Node>> {
 }
 
 pub fn pattern_strategy(depth: u32) -> BoxedStrategy<String> {
-    seq_strategy(depth)
-        .prop_map(|seq| {
+    (seq_strategy(depth), prop::option::weighted(0.15, (any::<u16>(), any::<u16>(), any::<bool>())))
+        .prop_map(|(mut seq, dup)| {
+            // now and then one group occurs twice, verbatim (two independent choices that look alike)
+            if let Some((i, j, sep)) = dup {
+                let groups: Vec<usize> = seq.iter().enumerate().filter(|(_, n)| matches!(n, Node::Group(_))).map(|(k, _)| k).collect();
+                if !groups.is_empty() {
+                    let g = seq[groups[idx(i, groups.len())]].clone();
+                    let at = idx(j, seq.len() + 1);
+                    seq.insert(at, g);
+                    if sep {
+                        seq.insert(at, Node::Text("-".to_string()));
+                    }
+                }
+            }
             let mut s = String::new();
             render_seq(&seq, &mut s);
             s
@@ -389,7 +401,7 @@ pub fn check(c: &Case, obs: &mut Obs) -> Result<(), String> {
 pub fn property() -> Property {
     Property {
         id: "C04",
-        rule: "Patterns from the csh brace grammar (nesting depth <= 3, <= 4 items per level, 1-3 alternatives incl. empty ones, text pieces a b c d - 1 2 . * ? [0-9] [a,b] [!a-c] [ ] é >= <= < > and empty), bounded to <= 256 expansions (thorough: 1024); one pattern in ~20 has 30-100 groups on a single expansion path (in a row or nested) or one group with 20-90 alternatives; unbalanced variants by deleting / inserting / flipping one brace and random strings over { } , a. Names: (i) an instance of a randomly chosen true expansion (plain -> itself, glob -> instantiated, dewey -> base-version around the bounds); (ii) decoys = instances of strings produced by deliberately wrong expanders (first-'}' pairing with all-depth comma split, first-'{'/last-'}' pairing, dropped empty alternatives, braces ignored) that are not true expansions; (iii) one-character mutations of (i). Oracle: Pattern::new is Ok iff braces are properly nested (M-brace balanced); when Ok, matches(name) iff some string of M-brace expand(pattern) compiles and matches name as a pattern in its own right. Non-trivial = nesting depth >= 2 or >= 2 groups, >= 2 expansions, name of kind (i) or (ii). Distinct = distinct (pattern, name).",
+        rule: "Patterns from the csh brace grammar (nesting depth <= 3, <= 4 items per level, 1-3 alternatives incl. empty ones, text pieces a b c d - 1 2 . * ? [0-9] [a,b] [!a-c] [ ] é >= <= < > and empty), bounded to <= 256 expansions (thorough: 1024); one pattern in ~20 has 30-100 groups on a single expansion path (in a row or nested) or one group with 20-90 alternatives; unbalanced variants by deleting / inserting / flipping one brace and random strings over { } , a. Names: (i) an instance of a randomly chosen true expansion (plain -> itself, glob -> instantiated, dewey -> base-version around the bounds); (ii) decoys = instances of strings produced by deliberately wrong expanders (first-'}' pairing with all-depth comma split, first-'{'/last-'}' pairing, dropped empty alternatives, braces ignored) that are not true expansions; (iii) one-character mutations of (i). Oracle: Pattern::new is Ok iff braces are properly nested (M-brace balanced); when Ok, matches(name) iff some string of M-brace expand(pattern) compiles and matches name as a pattern in its own right. Non-trivial = nesting depth >= 2 or >= 2 groups, >= 2 expansions, name of kind (i) or (ii). Distinct = distinct (pattern, name). Generators also draw, at low weight, tokens from the source-literal dictionary (every string / byte / character literal of the library's own source, collected at build time and filtered by this domain's character class); pieces include a backslash, '-[0-9]*', '+', '_' and a non-ASCII digit; instances fill '*' also with non-ASCII digits.",
         assumptions: vec![
             "brace-free expansions are judged by the library itself ('matches as a pattern in its own right'); that machinery is checked independently by C02/C05",
             "patterns above the group/expansion bound are only checked for compile-ability",
